@@ -1444,6 +1444,12 @@ func (w *world) runAll() (cases []lib.Case) {
 	w.signVerifyCases(signed)
 	w.keyCases()
 	w.matchProductsCases(final)
+	if cfg.Index%2 == 0 && !cfg.TwoInspections {
+		w.unwritableDirCases(signed, final, links)
+	}
+	if cfg.Index%5 == 4 {
+		w.recordStaleCases()
+	}
 	switch cfg.Index % 4 {
 	case 0:
 		w.commandArgumentCases()
